@@ -1,7 +1,7 @@
 (* CatalogProofs.v — the two-structure Catalog (CatalogImpl.v) refines the association-list model
    (Coll.v section Assoc): representation invariant [cat_inv], abstraction [abs], every method preserves the
    invariant and commutes with [abs]; frame lemmas (which heap cells a call may write); histories. *)
-From Verif Require Import Base Sorter SorterProofs SorterProofs2 Value Seq Coll Pool AssocProofs AssocProofs2 CatalogImpl.
+From Verif Require Import Base Sorter SorterProofs SorterProofs2 Value Seq Coll Pool AssocProofs AssocProofs2 ReorderProofs CatalogImpl.
 From Coq Require Import Permutation.
 Local Open Scope nat_scope.
 
@@ -856,6 +856,17 @@ Definition val_merge_refines zero := merge_refines val val VNil zero Value.keq k
 Definition val_extract_refines zero := extract_refines val val VNil zero Value.keq keq_sym keq_trans.
 Definition val_from_map_refines zero := from_map_refines val val VNil zero Value.keq keq_sym keq_trans.
 Definition val_from_sequence_refines zero := from_sequence_refines val val VNil zero Value.keq keq_sym keq_trans.
+
+(* MakeFromMap of the code-shaped model, fed with the Go map's entries in the order the range statement
+   visited them (the oracle order of Pool.step (FromMap ...)): the catalog lists exactly these entries *)
+Theorem from_map_oracle : forall zero h okeys m m', wfm val val Value.keq m -> reorder m okeys = Some m' ->
+  exists h' c', c_from_map Value.keq h m' = Ret (h', c') /\ vinv zero h' c' /\ vabs zero h' c' = m' /\ vsame zero h h'.
+Proof.
+  intros zero h okeys m m' W R. destruct (val_from_map_refines zero h m') as (h' & c' & E & I & A & S).
+  exists h', c'. split; [exact E|]. split; [exact I|]. split; [|exact S].
+  fold (vabs zero) in A. rewrite A. apply (a_set_all_fresh val val Value.keq keq_sym m' []). cbn [app].
+  apply (reorder_keeps_mapping okeys m m' W R).
+Qed.
 
 (* structural equality of two association objects, as the default collator sees them (the comparison
    List.GetIndex used before fix 0d7f9f0) *)
